@@ -20,9 +20,17 @@
 /* attributes live in a slot fixed by their (interned) name, so conditional writes never shift later attributes */
 static struct qs c02_empty_blk = { { {{{{ (uint32_t)-1 }}}}, 0, 0, QS_OFF }, 0, 0, 0, 1, 1, 0, 0, 0, { 0 } };   /* static (ref -1), len 0, hint 0, exact+lit, sid 0 */
 #define C02_EMPTY (&c02_empty_blk.h)
+/* (3) strings stored into the tree by the writer are model blocks with a content id: a static QStringLiteral / shared_null operand is copied into
+       one (constant content: the copy and its id fold). (4) blocks owned by the tree are immortal (ref -1, like Qt's static data; model blocks are
+       never recycled anyway): reference counting through if-then-else pointers otherwise grows a conditional-increment term per block. */
+static QAD *c02_blk(QAD *d) { if (d->f3 == QS_OFF) return qad_ref(d); if (d->f1 == 0) return C02_EMPTY; QAD *c = qs_from(qs_chars(d), d->f1); REF(c) = (uint32_t)-1; return c; }
 static QAD *c02_nz(QAD *d) { return d->f1 == 0 && d == SHARED_NULL ? C02_EMPTY : d; }
 struct dnode { QAD *tag, *ns, *text; uint32_t nattr; uint8_t has[DOM_MAXATTR]; QAD *av[DOM_MAXATTR]; uint32_t nch; struct dnode *ch[DOM_MAXCH]; struct dnode *parent; uint32_t idx; uint32_t ntext; };
-static struct dnode *dn_new(void) { struct dnode *n = malloc(sizeof(struct dnode)); ASSUME(n != 0); n->tag = C02_EMPTY; n->ns = C02_EMPTY; n->text = C02_EMPTY; n->nattr = 0; for (uint32_t i = 0; i < DOM_MAXATTR; i++) { n->has[i] = 0; n->av[i] = C02_EMPTY; } n->nch = 0; n->parent = 0; n->idx = 0; n->ntext = 0; return n; }
+/* (2) unused child slots point to a static sentinel node (not uninitialised / null): reading slot i of a node whose child COUNT is symbolic then
+       yields an if-then-else over valid nodes only, and the string getters on it stay within model blocks */
+static struct dnode c02_nonode;
+static void c02_nonode_init(void) { struct dnode *n = &c02_nonode; n->tag = C02_EMPTY; n->ns = C02_EMPTY; n->text = C02_EMPTY; n->nattr = 0; for (uint32_t i = 0; i < DOM_MAXATTR; i++) { n->has[i] = 0; n->av[i] = C02_EMPTY; } n->nch = 0; for (uint32_t i = 0; i < DOM_MAXCH; i++) n->ch[i] = n; n->parent = 0; n->idx = 0; n->ntext = 0; }
+static struct dnode *dn_new(void) { struct dnode *n = malloc(sizeof(struct dnode)); ASSUME(n != 0); n->tag = C02_EMPTY; n->ns = C02_EMPTY; n->text = C02_EMPTY; n->nattr = 0; for (uint32_t i = 0; i < DOM_MAXATTR; i++) { n->has[i] = 0; n->av[i] = C02_EMPTY; } n->nch = 0; for (uint32_t i = 0; i < DOM_MAXCH; i++) n->ch[i] = &c02_nonode; n->parent = 0; n->idx = 0; n->ntext = 0; return n; }
 #define DN(el) (*(struct dnode**)(el))
 /* ---- QDomNode / QDomElement ---- */
 void _ZN8QDomNodeC2Ev(char *self) { DN(self) = 0; }
@@ -68,7 +76,7 @@ void _ZNK8QDomNode10parentNodeEv(char *ret, char *el) { struct dnode *n = DN(el)
 uint8_t _ZNK8QDomNode13hasChildNodesEv(char *el) { struct dnode *n = DN(el); return n && (n->nch > 0 || n->text->f1 > 0); }
 /* ---- tree building (writer and harness) ---- */
 static void dn_append(struct dnode *p, struct dnode *c) { ASSERT(p->nch < DOM_MAXCH, "DOM model: too many children"); c->parent = p; c->idx = p->nch; p->ch[p->nch++] = c; }
-static void dn_set_attr(struct dnode *n, QAD *name, QAD *val) { int s = vpl_attr_slot(name, 1); if (!n->has[s]) { n->has[s] = 1; n->nattr++; } n->av[s] = qad_ref(val); }
+static void dn_set_attr(struct dnode *n, QAD *name, QAD *val) { int s = vpl_attr_slot(name, 1); if (!n->has[s]) { n->has[s] = 1; n->nattr++; } n->av[s] = c02_blk(val); }
 void vp_dom_new(char *out, char *tag, char *ns) { struct dnode *n = dn_new(); n->tag = qad_ref(*(QAD**)tag); n->ns = qad_ref(*(QAD**)ns); DN(out) = n; }
 void vp_dom_set_attr(char *el, char *name, char *val) { dn_set_attr(DN(el), *(QAD**)name, *(QAD**)val); }
 void vp_dom_set_text(char *el, char *text) { DN(el)->text = qad_ref(*(QAD**)text); }
@@ -78,21 +86,21 @@ void _ZN11QDomElement12setAttributeERK7QStringS2_(char *el, char *name, char *va
 struct wr { struct dnode *root; struct dnode *stack[DOM_MAXDEPTH]; uint32_t depth; uint32_t done; uint32_t raw; };
 #define WR(w) (*(struct wr**)(w))
 void vp_writer_init(char *w) { struct wr *x = malloc(sizeof(struct wr)); ASSUME(x != 0); x->root = 0; x->depth = 0; x->done = 0; x->raw = 0; WR(w) = x; }
-static struct dnode *wr_open(struct wr *x, QAD *tag, QAD *ns) { ASSERT(x->depth < DOM_MAXDEPTH, "writer model: nesting too deep"); struct dnode *n = dn_new(); n->tag = qad_ref(tag);
-  if (x->depth == 0) { VP_ASSERT(x->root == 0, "writer: a second document element is written (not well-formed)"); x->root = n; n->ns = ns ? qad_ref(ns) : C02_EMPTY; }
-  else { struct dnode *p = x->stack[x->depth - 1]; n->ns = ns ? qad_ref(ns) : p->ns; dn_append(p, n); }
+static struct dnode *wr_open(struct wr *x, QAD *tag, QAD *ns) { ASSERT(x->depth < DOM_MAXDEPTH, "writer model: nesting too deep"); struct dnode *n = dn_new(); n->tag = c02_blk(tag);
+  if (x->depth == 0) { VP_ASSERT(x->root == 0, "writer: a second document element is written (not well-formed)"); x->root = n; n->ns = ns ? c02_blk(ns) : C02_EMPTY; }
+  else { struct dnode *p = x->stack[x->depth - 1]; n->ns = ns ? c02_blk(ns) : p->ns; dn_append(p, n); }
   x->stack[x->depth++] = n; return n; }
 static struct dnode *wr_cur(struct wr *x) { VP_ASSERT(x->depth > 0, "writer: attribute/text/end written outside any element (not well-formed)"); ASSUME(x->depth > 0); return x->stack[x->depth - 1]; }
 void _ZN16QXmlStreamWriter17writeStartElementERK7QString(char *w, char *name) { wr_open(WR(w), *(QAD**)name, 0); }
 void _ZN16QXmlStreamWriter17writeStartElementERK7QStringS2_(char *w, char *ns, char *name) { wr_open(WR(w), *(QAD**)name, *(QAD**)ns); }
 void _ZN16QXmlStreamWriter15writeEndElementEv(char *w) { struct wr *x = WR(w); wr_cur(x); x->depth--; }
 void _ZN16QXmlStreamWriter17writeEmptyElementERK7QString(char *w, char *name) { struct wr *x = WR(w); wr_open(x, *(QAD**)name, 0); x->depth--; }
-void _ZN16QXmlStreamWriter21writeDefaultNamespaceERK7QString(char *w, char *ns) { struct dnode *n = wr_cur(WR(w)); VP_ASSERT(n->nch == 0 && n->text->f1 == 0, "writer: namespace declared after content"); n->ns = qad_ref(*(QAD**)ns); }
+void _ZN16QXmlStreamWriter21writeDefaultNamespaceERK7QString(char *w, char *ns) { struct dnode *n = wr_cur(WR(w)); VP_ASSERT(n->nch == 0 && n->text->f1 == 0, "writer: namespace declared after content"); n->ns = c02_blk(*(QAD**)ns); }
 void _ZN16QXmlStreamWriter14writeAttributeERK7QStringS2_(char *w, char *name, char *val) { struct dnode *n = wr_cur(WR(w)); VP_ASSERT(n->nch == 0 && n->text->f1 == 0, "writer: attribute written after content");
   VP_ASSERT(dn_attr(n, *(QAD**)name) < 0, "writer: duplicate attribute (not well-formed)"); dn_set_attr(n, *(QAD**)name, *(QAD**)val); }
 void _ZN16QXmlStreamWriter15writeCharactersERK7QString(char *w, char *t) { struct dnode *n = wr_cur(WR(w)); QAD *s = *(QAD**)t; if (s->f1 == 0) return;
-  ASSERT(n->text->f1 == 0, "writer model: one text run per element"); n->text = qad_ref(s); }
-void _ZN16QXmlStreamWriter16writeTextElementERK7QStringS2_(char *w, char *name, char *t) { struct wr *x = WR(w); struct dnode *n = wr_open(x, *(QAD**)name, 0); n->text = qad_ref(*(QAD**)t); x->depth--; }
+  ASSERT(n->text->f1 == 0, "writer model: one text run per element"); n->text = c02_blk(s); }
+void _ZN16QXmlStreamWriter16writeTextElementERK7QStringS2_(char *w, char *name, char *t) { struct wr *x = WR(w); struct dnode *n = wr_open(x, *(QAD**)name, 0); n->text = c02_blk(*(QAD**)t); x->depth--; }
 void _ZN16QXmlStreamWriter18writeStartDocumentEv(char *w) { }
 void _ZN16QXmlStreamWriter16writeEndDocumentEv(char *w) { struct wr *x = WR(w); x->depth = 0; }
 void vp_writer_root(char *w, char *el) { struct wr *x = WR(w); VP_ASSERT(x->root != 0 && x->depth == 0, "writer: document element is complete and balanced"); ASSUME(x->root != 0); DN(el) = x->root; }
